@@ -135,6 +135,54 @@ func iteratorWriteBackRule(r *Run, rule string, names map[string]bool) {
 			fresh := lp != nil && elem.Pos() > lp.Pos() && elem.Pos() < lp.End()
 			r.check(fresh, rule, "iterator-fresh-element|"+v.ID(), v.pos(cbCall), "each element is decoded into a fresh value", v.ID()+" decodes every record into one variable declared outside the loop: zero-valued fields of a record keep the previous record's values (and are written back)")
 		}
+		// every stored element reaches the callback: before it, the loop is left only with an error, and an
+		// element is skipped only by a filter over the helper's parameters and the element itself
+		if lp := v.innermostLoop(cbCall); lp != nil {
+			var early []string
+			ast.Inspect(lp, func(n ast.Node) bool {
+				if _, isLit := n.(*ast.FuncLit); isLit {
+					return false
+				}
+				if n == nil || n.Pos() >= cbCall.Pos() {
+					return true
+				}
+				switch x := n.(type) {
+				case *ast.ReturnStmt:
+					if !returnsErr(v, x) {
+						early = append(early, "return without an error at "+v.pos(x))
+					}
+				case *ast.BranchStmt:
+					if v.innermostLoop(x) != lp {
+						return true
+					}
+					if x.Tok.String() != "continue" {
+						early = append(early, x.Tok.String()+" at "+v.pos(x))
+						return true
+					}
+					for _, f := range v.factsAt(x, false) {
+						if f.LoopCond || f.At == nil || f.At.Pos() < lp.Pos() || f.At.Pos() > lp.End() {
+							continue
+						}
+						ast.Inspect(f.Atom, func(m ast.Node) bool {
+							id, isID := m.(*ast.Ident)
+							if !isID {
+								return true
+							}
+							o, isVar := v.Info.Uses[id].(*types.Var)
+							if !isVar || o.IsField() || o.Pkg() == nil || isParamObj(v, o) {
+								return true
+							}
+							if o.Pos() < lp.Pos() || o.Pos() > lp.End() {
+								early = append(early, "continue at "+v.pos(x)+" depends on "+o.Name()+", which outlives the iteration")
+							}
+							return true
+						})
+					}
+				}
+				return true
+			})
+			r.check(len(early) == 0, rule, "iterator-visits-all|"+v.ID(), v.pos(lp), "every stored element that passes the caller's filter reaches the callback", v.ID()+" can leave or skip elements before the callback: "+strings.Join(early, "; "))
+		}
 		r.check(okCond && okVal && okKey, rule, key, v.pos(setCall), "a modified element is always written back (under its own key) when isUpdate is set and the callback succeeded", describeWB(v, okCond, okVal, okKey, extra))
 	}
 	if n == 0 {
@@ -264,4 +312,15 @@ func shareZeroingRule(r *Run, rule string) {
 	}
 	ok, why := v.rmwOnlyFields(sets[0], map[string]bool{"UndelegatableShare": true})
 	r.check(ok, rule, "share-zeroing|only-undelegatable-share", v.pos(sets[0]), "zeroing the shares after a pool-emptying slash leaves every other field (the pending undelegation amount) as it was", "SetStakerShareToZero: "+why+": pending undelegations of the stakers can no longer be released")
+}
+
+func isParamObj(v *FnView, o types.Object) bool {
+	for _, fl := range v.Decl.Type.Params.List {
+		for _, nm := range fl.Names {
+			if v.Info.ObjectOf(nm) == o {
+				return true
+			}
+		}
+	}
+	return false
 }
